@@ -327,6 +327,32 @@ SPEC_FORMS[col] = q_col
 
 
 # ---------------------------------------------------------------------------
+# subseq(s, start, length): s[start:start+length] for start, length >= 0 (empty otherwise) -- the sequence theory's
+# own extract, without the case analysis of Python's negative / clamped slice bounds (clauses under quantifiers)
+# ---------------------------------------------------------------------------
+def subseq(s, start, length):
+    if start < 0 or length <= 0:
+        return s[:0]
+    return s[start : start + length]
+
+
+def q_subseq(ex, args, kwargs):
+    from .engine import mk_bytes, zbytes
+
+    s, start, length = args
+    st, ln = zint(M.plain(start)), zint(M.plain(length))
+    if M.is_byteslike(ex, s):
+        return mk_bytes(z3.Extract(zbytes(ex.as_bytes_value(s)), st, ln))
+    q = ex.as_symseq(s)
+    if q is None:
+        raise Unsupported('subseq of something that is not a sequence')
+    return Sym(z3.Extract(q.t, st, ln), q.k)
+
+
+SPEC_FORMS[subseq] = q_subseq
+
+
+# ---------------------------------------------------------------------------
 # itertools.islice(seq, stop)
 # ---------------------------------------------------------------------------
 class PrefixView(ExtObj):
